@@ -32,17 +32,21 @@ def seed():
 _built = {}
 
 
-def build_harness(profile="dev", nan_boxing=False):
-    """cargo build the harness against /repo's current tree; returns the binary path."""
-    key = (profile, nan_boxing)
+def build_harness(profile="dev", nan_boxing=False, gc_stress=False):
+    """cargo build the harness against /repo's current tree; returns the binary path.
+    gc_stress: laythe_core's own stress feature - a full collection at every allocation AND at every reserve that
+    does not grow (so at every call's stack check, whatever the stack's fill level)."""
+    key = (profile, nan_boxing, gc_stress)
     if key in _built:
         return _built[key]
     cmd = ["cargo", "build", "--offline", "-q"]
     if profile != "dev":
         cmd += ["--profile", profile]
-    tdir = "target-nb" if nan_boxing else "target"
+    tdir = "target-gs" if gc_stress else "target-nb" if nan_boxing else "target"
     if nan_boxing:
         cmd += ["--features", "nan_boxing"]
+    if gc_stress:
+        cmd += ["--features", "gc_stress"]
     env = dict(os.environ, CARGO_TARGET_DIR=os.path.join(HARNESS, tdir), CARGO_NET_OFFLINE="true",
                RUSTFLAGS=os.environ.get("RUSTFLAGS", "") + " -Awarnings")
     t0 = time.time()
@@ -52,7 +56,7 @@ def build_harness(profile="dev", nan_boxing=False):
         raise ToolError("harness build failed")
     sub = "debug" if profile == "dev" else profile
     path = os.path.join(HARNESS, tdir, sub, "lvh")
-    log(f"[build] {profile}{' nan_boxing' if nan_boxing else ''} {time.time()-t0:.1f}s")
+    log(f"[build] {profile}{' nan_boxing' if nan_boxing else ''}{' gc_stress' if gc_stress else ''} {time.time()-t0:.1f}s")
     _built[key] = path
     return path
 
